@@ -7,7 +7,13 @@ from props import _c05impl as I
 ID = "C05"
 LEAN_TARGETS = ["TornadoModel.C05.Props"]
 THEOREMS = [
-    "TornadoModel.C05.stub",
+    "TornadoModel.C05.go_inv",
+    "TornadoModel.C05.step_inv",
+    "TornadoModel.C05.exec_inv",
+    "TornadoModel.C05.notify_exactly_once",
+    "TornadoModel.C05.never_both",
+    "TornadoModel.C05.notify_spec",
+    "TornadoModel.C05.no_notification_ahead",
 ]
 TRUSTED = [
     "asyncio callback ordering and tornado.gen.with_timeout/convert_yielded as abstracted by the model "
@@ -30,9 +36,12 @@ RULE = ("pipelines of 1-3 grammar-built requests x delegate scripts (sync/async/
         "was fully served, or >=2 requests were served")
 EXHAUSTIVE = {"quick": False, "thorough": False}
 CLAUSES = {
-    "a delegate that has received headers is told exactly once finish or close, never both": "tie only (stub)",
-    "received chunks concatenate to a prefix of the sent body, whole body when finished": "tie only",
-    "closing all server connections completes": "tie only",
+    "a delegate that has received headers is told exactly once finish or close, never both":
+        "notify_exactly_once + never_both + notify_spec (all configurations, all event sequences; invariant exec_inv)",
+    "received chunks concatenate to a prefix of the sent body, whole body when finished":
+        "tie only: data_prefix_goal stated; Spec.dataOk + byte-level prefix applied to the implementation on every case",
+    "closing all server connections completes":
+        "tie only: close_terminates_goal stated; every case ends with close_all_connections() under a virtual-time watchdog",
 }
 PARALLEL = True
 CASE_TIMEOUT = 20
